@@ -1,0 +1,137 @@
+//! Verification hooks (cargo feature `verif-hooks`, off by default).
+//!
+//! Nothing here changes production behavior: these are constructors that run the
+//! unmodified server session loop and client loop over a byte stream supplied by the
+//! caller instead of a socket or serial port.
+
+use std::num::NonZeroUsize;
+use std::sync::Arc;
+use std::time::Duration;
+
+use crate::client::task::{ClientLoop, SessionError, StateChange};
+use crate::client::Channel;
+use crate::common::frame::{FrameWriter, FramedReader};
+use crate::common::phys::PhysLayer;
+use crate::server::task::{AuthorizationType, ServerCommand, SessionTask};
+use crate::server::{AuthorizationHandler, RequestHandler, ServerHandlerMap};
+use crate::{DecodeLevel, RequestError, Shutdown};
+
+/// Byte stream accepted by the hooks
+pub trait VerifIo: tokio::io::AsyncRead + tokio::io::AsyncWrite + Unpin + Send {}
+
+impl<T> VerifIo for T where T: tokio::io::AsyncRead + tokio::io::AsyncWrite + Unpin + Send {}
+
+/// Framing used by a hooked session
+#[derive(Copy, Clone, Debug, PartialEq, Eq)]
+pub enum Framing {
+    /// MBAP framing (TCP / TLS)
+    Mbap,
+    /// RTU framing (serial)
+    #[cfg(feature = "serial")]
+    Rtu,
+}
+
+/// Run the production server session loop over `io` until it ends, returning the reason
+pub async fn run_server_session<T: RequestHandler>(
+    io: Box<dyn VerifIo>,
+    framing: Framing,
+    handlers: ServerHandlerMap<T>,
+    auth: Option<(Arc<dyn AuthorizationHandler>, String)>,
+    commands: tokio::sync::mpsc::Receiver<ServerCommand>,
+    decode: DecodeLevel,
+) -> RequestError {
+    let (writer, reader) = match framing {
+        Framing::Mbap => (FrameWriter::tcp(), FramedReader::tcp()),
+        #[cfg(feature = "serial")]
+        Framing::Rtu => (FrameWriter::rtu(), FramedReader::rtu_request()),
+    };
+    let auth = match auth {
+        None => AuthorizationType::None,
+        Some((handler, role)) => AuthorizationType::Handler(handler, role),
+    };
+    let mut phys = PhysLayer::new_verif(io);
+    SessionTask::new(handlers, auth, writer, reader, commands, decode)
+        .run(&mut phys)
+        .await
+}
+
+/// Public mirror of the reason a client session ended
+#[derive(Copy, Clone, Debug, PartialEq, Eq)]
+pub enum SessionEnd {
+    /// the stream failed
+    IoError(std::io::ErrorKind),
+    /// unrecoverable framing error
+    BadFrame,
+    /// channel was disabled
+    Disabled,
+    /// maximum number of consecutive response timeouts reached
+    MaxTimeouts(usize),
+    /// all handles dropped or shutdown requested
+    Shutdown,
+}
+
+/// Public mirror of the reason a wait ended early
+#[derive(Copy, Clone, Debug, PartialEq, Eq)]
+pub enum WaitEnd {
+    /// channel was disabled
+    Disable,
+    /// all handles dropped or shutdown requested
+    Shutdown,
+}
+
+/// The production client loop, driven session by session by the caller
+pub struct ClientSim {
+    inner: ClientLoop,
+}
+
+/// Create a channel handle and the client loop behind it
+pub fn client(
+    framing: Framing,
+    max_queued_requests: usize,
+    decode: DecodeLevel,
+    max_timeouts: Option<NonZeroUsize>,
+) -> (Channel, ClientSim) {
+    let (tx, rx) = tokio::sync::mpsc::channel(max_queued_requests);
+    let (writer, reader) = match framing {
+        Framing::Mbap => (FrameWriter::tcp(), FramedReader::tcp()),
+        #[cfg(feature = "serial")]
+        Framing::Rtu => (FrameWriter::rtu(), FramedReader::rtu_response()),
+    };
+    let inner = ClientLoop::new(rx.into(), writer, reader, decode, max_timeouts);
+    (Channel { tx }, ClientSim { inner })
+}
+
+impl ClientSim {
+    /// Run one connected session over `io` until it ends
+    pub async fn run_session(&mut self, io: Box<dyn VerifIo>) -> SessionEnd {
+        let mut phys = PhysLayer::new_verif(io);
+        match self.inner.run(&mut phys).await {
+            SessionError::IoError(x) => SessionEnd::IoError(x),
+            SessionError::BadFrame => SessionEnd::BadFrame,
+            SessionError::Disabled => SessionEnd::Disabled,
+            SessionError::MaxTimeouts(x) => SessionEnd::MaxTimeouts(x),
+            SessionError::Shutdown => SessionEnd::Shutdown,
+        }
+    }
+
+    /// Fail requests until the channel is enabled
+    pub async fn wait_for_enabled(&mut self) -> Result<(), Shutdown> {
+        self.inner.wait_for_enabled().await
+    }
+
+    /// Fail requests for the specified duration
+    pub async fn fail_requests_for(&mut self, duration: Duration) -> Result<(), WaitEnd> {
+        self.inner
+            .fail_requests_for(duration)
+            .await
+            .map_err(|x| match x {
+                StateChange::Disable => WaitEnd::Disable,
+                StateChange::Shutdown => WaitEnd::Shutdown,
+            })
+    }
+
+    /// Is the channel currently enabled?
+    pub fn is_enabled(&self) -> bool {
+        self.inner.is_enabled()
+    }
+}
